@@ -1,1 +1,212 @@
-pub fn cmd_cli(_args: &[String]) { unimplemented!() }
+//! C18 (and the process-boundary part of C01): run TLC-exported scenarios against the real `jsonlogic` binary.
+//! scenario: {"id", "rule": text, "mode": 1|2|3, "data": text, "exp": {"status": "zero"|"nonzero", "out": [AJ...]}, "pipe": [{rule2, status, out}]}
+//! text: {"valid": true, "v": AJ} | {"valid": false, "cls": class}
+
+use crate::aj;
+use serde_json::{json, Value};
+use std::fs::File;
+use std::io::{BufRead, BufReader, BufWriter, Read, Write};
+use std::process::{Command, Stdio};
+use std::time::{Duration, Instant};
+
+fn die(msg: &str) -> ! {
+    eprintln!("TOOL-ERROR: {}", msg);
+    std::process::exit(2);
+}
+
+fn materialize(t: &Value) -> Vec<u8> {
+    if t["valid"].as_bool().unwrap_or(false) {
+        return aj::from_aj(&t["v"]).unwrap_or_else(|e| die(&e)).to_string().into_bytes();
+    }
+    match t["cls"].as_str().unwrap_or("?") {
+        "empty" => b"".to_vec(),
+        "truncated" => b"{\"a\":[1,2".to_vec(),
+        "garbage" => b"{\"a\":1} x".to_vec(),
+        "notjson" => b"nonsense".to_vec(),
+        "badutf8" => vec![0xff, 0xfe, b'{', b'}'],
+        "junk" => b"JUNK-ON-STDIN".to_vec(),
+        other => die(&format!("unknown text class {}", other)),
+    }
+}
+
+pub struct ProcOut {
+    pub code: Option<i32>,
+    pub stdout: Vec<u8>,
+    pub stderr: Vec<u8>,
+    pub timed_out: bool,
+}
+
+pub fn spawn(bin: &str, args: &[Vec<u8>], stdin: &[u8]) -> ProcOut {
+    use std::os::unix::ffi::OsStrExt;
+    let mut cmd = Command::new(bin);
+    for a in args {
+        cmd.arg(std::ffi::OsStr::from_bytes(a));
+    }
+    let mut child = cmd.stdin(Stdio::piped()).stdout(Stdio::piped()).stderr(Stdio::piped()).env("RUST_BACKTRACE", "0").spawn().unwrap_or_else(|e| die(&format!("spawn {}: {}", bin, e)));
+    {
+        let mut si = child.stdin.take().unwrap();
+        let _ = si.write_all(stdin); // the child may not read it (EPIPE is fine)
+    }
+    let mut so = child.stdout.take().unwrap();
+    let mut se = child.stderr.take().unwrap();
+    let t1 = std::thread::spawn(move || {
+        let mut b = Vec::new();
+        let _ = so.read_to_end(&mut b);
+        b
+    });
+    let t2 = std::thread::spawn(move || {
+        let mut b = Vec::new();
+        let _ = se.read_to_end(&mut b);
+        b
+    });
+    let start = Instant::now();
+    let mut timed_out = false;
+    let status = loop {
+        match child.try_wait() {
+            Ok(Some(s)) => break Some(s),
+            Ok(None) => {
+                if start.elapsed() > Duration::from_secs(20) {
+                    let _ = child.kill();
+                    let _ = child.wait();
+                    timed_out = true;
+                    break None;
+                }
+                std::thread::sleep(Duration::from_millis(2));
+            }
+            Err(_) => break None,
+        }
+    };
+    ProcOut { code: status.and_then(|s| s.code()), stdout: t1.join().unwrap_or_default(), stderr: t2.join().unwrap_or_default(), timed_out }
+}
+
+/// Compare a process outcome with the expected status class and output lines. None = agrees.
+fn judge(p: &ProcOut, exp_status: &str, exp_out: &[Value]) -> Option<(String, String)> {
+    if p.timed_out {
+        return Some(("hang".into(), "no exit within 20 s".into()));
+    }
+    let err = String::from_utf8_lossy(&p.stderr);
+    match p.code {
+        None => return Some(("crash".into(), "killed by a signal".into())),
+        Some(101) => return Some(("crash".into(), format!("exit status 101 (panic): {}", err.lines().next().unwrap_or("")))),
+        _ => {}
+    }
+    if err.contains("panicked at") {
+        return Some(("crash".into(), format!("panic message on stderr: {}", err.lines().next().unwrap_or(""))));
+    }
+    let zero = p.code == Some(0);
+    if zero != (exp_status == "zero") {
+        return Some(("mismatch".into(), format!("exit status {:?}, expected {}", p.code, exp_status)));
+    }
+    let text = match std::str::from_utf8(&p.stdout) {
+        Ok(t) => t,
+        Err(_) => return Some(("mismatch".into(), "stdout is not UTF-8".into())),
+    };
+    if !text.is_empty() && !text.ends_with('\n') {
+        return Some(("mismatch".into(), "stdout does not end with a newline".into()));
+    }
+    let lines: Vec<&str> = if text.is_empty() { vec![] } else { text[..text.len() - 1].split('\n').collect() };
+    if lines.len() != exp_out.len() {
+        return Some(("mismatch".into(), format!("{} stdout lines, expected {}", lines.len(), exp_out.len())));
+    }
+    for (i, (l, e)) in lines.iter().zip(exp_out.iter()).enumerate() {
+        match serde_json::from_str::<Value>(l) {
+            Ok(v) => {
+                if !aj::same(e, &aj::to_aj(&v), false) {
+                    return Some(("mismatch".into(), format!("stdout line {} is {}, expected {}", i + 1, l, aj::from_aj(e).map(|x| x.to_string()).unwrap_or_default())));
+                }
+            }
+            Err(_) => return Some(("mismatch".into(), format!("stdout line {} is not JSON: {}", i + 1, l))),
+        }
+    }
+    None
+}
+
+pub fn cmd_cli(args: &[String]) {
+    let path = &args[0];
+    let out_path = &args[1];
+    let bin = args.iter().position(|a| a == "--bin").map(|i| args[i + 1].clone()).unwrap_or_else(|| die("--bin required"));
+    let f = File::open(path).unwrap_or_else(|e| die(&format!("{}: {}", path, e)));
+    let mut out = BufWriter::new(File::create(out_path).unwrap());
+    let (mut n, mut ok, mut bad, mut crashed, mut hung) = (0u64, 0u64, 0u64, 0u64, 0u64);
+    let mut samples: Vec<Value> = Vec::new();
+    for (ln, line) in BufReader::new(f).lines().enumerate() {
+        let line = line.unwrap();
+        if line.trim().is_empty() {
+            continue;
+        }
+        let s: Value = serde_json::from_str(&line).unwrap_or_else(|e| die(&format!("{} line {}: {}", path, ln + 1, e)));
+        let rule_text = materialize(&s["rule"]);
+        let data_text = materialize(&s["data"]);
+        let mode = s["mode"].as_u64().unwrap_or(1);
+        let (argv, stdin): (Vec<Vec<u8>>, Vec<u8>) = match mode {
+            1 => (vec![rule_text.clone(), data_text.clone()], b"JUNK-ON-STDIN".to_vec()),
+            2 => (vec![rule_text.clone()], data_text.clone()),
+            _ => (vec![rule_text.clone(), b"-".to_vec()], data_text.clone()),
+        };
+        let p = spawn(&bin, &argv, &stdin);
+        n += 1;
+        let exp_out: Vec<Value> = s["exp"]["out"].as_array().cloned().unwrap_or_default();
+        let mut verdict = judge(&p, s["exp"]["status"].as_str().unwrap_or("?"), &exp_out);
+        // faithful wrapper: the result line is exactly the library's serialisation
+        if verdict.is_none() && s["rule"]["valid"] == true && s["data"]["valid"] == true {
+            let rule = aj::from_aj(&s["rule"]["v"]).unwrap();
+            let data = aj::from_aj(&s["data"]["v"]).unwrap();
+            let lib = crate::run::run_apply(&rule, &data);
+            let text = String::from_utf8_lossy(&p.stdout).to_string();
+            let last = text.trim_end_matches('\n').rsplit('\n').next().unwrap_or("").to_string();
+            if lib.ok != (p.code == Some(0)) {
+                verdict = Some(("mismatch".into(), format!("CLI status {:?} but the library returned {}", p.code, if lib.ok { "Ok" } else { "Err" })));
+            } else if lib.ok && last != lib.v.to_string() {
+                verdict = Some(("mismatch".into(), format!("CLI result line {} differs from the library's serialisation {}", last, lib.v)));
+            }
+        }
+        let modename = ["", "argument", "stdin (argument omitted)", "stdin (-)"][mode as usize];
+        let mut report = |kind: &str, why: &str, rule_t: &[u8], data_t: &[u8], expected: Value, actual: &ProcOut, extra: &str| {
+            writeln!(out, "{}", json!({"kind": kind, "why": format!("{}{}", why, extra), "sc": ["C18"], "entry": "cli",
+                "rule": String::from_utf8_lossy(rule_t), "data": format!("{} [data via {}]", String::from_utf8_lossy(data_t), modename),
+                "expected": expected, "actual": {"status": actual.code, "stdout": String::from_utf8_lossy(&actual.stdout), "stderr_head": String::from_utf8_lossy(&actual.stderr).lines().next().unwrap_or("").to_string()},
+                "profile": "cli-release"})).unwrap();
+        };
+        match &verdict {
+            None => {
+                ok += 1;
+                if samples.len() < 4 {
+                    samples.push(json!({"argv": argv.iter().map(|a| String::from_utf8_lossy(a).to_string()).collect::<Vec<_>>(), "stdin": String::from_utf8_lossy(&stdin), "status": p.code, "stdout": String::from_utf8_lossy(&p.stdout)}));
+                }
+            }
+            Some((kind, why)) => {
+                match kind.as_str() {
+                    "crash" => crashed += 1,
+                    "hang" => hung += 1,
+                    _ => bad += 1,
+                }
+                report(kind, why, &rule_text, &data_text, s["exp"].clone(), &p, "");
+            }
+        }
+        // chaining: feed the ACTUAL stdout of this invocation to a second one
+        if verdict.is_none() {
+            if let Some(pipes) = s["pipe"].as_array() {
+                for (j, pe) in pipes.iter().enumerate() {
+                    let r2 = aj::from_aj(&pe["rule2"]).unwrap().to_string().into_bytes();
+                    let argv2: Vec<Vec<u8>> = if j % 2 == 0 { vec![r2.clone()] } else { vec![r2.clone(), b"-".to_vec()] };
+                    let p2 = spawn(&bin, &argv2, &p.stdout);
+                    n += 1;
+                    let e2: Vec<Value> = pe["out"].as_array().cloned().unwrap_or_default();
+                    match judge(&p2, pe["status"].as_str().unwrap_or("?"), &e2) {
+                        None => ok += 1,
+                        Some((kind, why)) => {
+                            match kind.as_str() {
+                                "crash" => crashed += 1,
+                                "hang" => hung += 1,
+                                _ => bad += 1,
+                            }
+                            report(&kind, &why, &r2, &p.stdout, json!({"status": pe["status"], "out": pe["out"]}), &p2,
+                                   &format!(" (second stage of a pipe; first stage: jsonlogic {} {})", String::from_utf8_lossy(&rule_text), String::from_utf8_lossy(&data_text)));
+                        }
+                    }
+                }
+            }
+        }
+    }
+    writeln!(out, "{}", json!({"summary": true, "cases": n, "matched": ok, "mismatched": bad, "crashed": crashed, "hung": hung, "samples": samples, "profile": "cli-release"})).unwrap();
+}
